@@ -22,6 +22,8 @@ VIOLATIONS = {
     'danglingIndexColumn': 'lib:ColumnNotFoundError', 'danglingGroupTable': 'lib:TableNotFoundError',
     'dupRefCommentDiffers': 'lib:DatabaseValidationError',
     'dupInlineRef': 'lib:DatabaseValidationError',
+    # the same dangling names in a document that declares NO table at all (only enums, sticky notes, a project - or nothing)
+    'danglingRefNoTables': 'lib:TableNotFoundError', 'danglingGroupNoTables': 'lib:TableNotFoundError',
 }
 
 
@@ -98,6 +100,11 @@ def inject(rng, spec, kind):
         return f'Table {fresh} {{\n  id int\n  indexes {{\n    nosuch_col\n  }}\n}}'
     if kind == 'danglingGroupTable':
         return f'TableGroup {fresh} {{\n  nosuch_{fresh}\n}}'
+    if kind == 'danglingRefNoTables':
+        return rng.choice([f'Ref: nosuch_{fresh}.id > other_{fresh}.id', f'Ref {{\n  s.nosuch_{fresh}.a - nosuch_{fresh}.b\n}}',
+                           f'Ref r1: a_{fresh}.(x, y) < b_{fresh}.(x, y)'])
+    if kind == 'danglingGroupNoTables':
+        return f'TableGroup {fresh} {{\n  nosuch_{fresh}\n}}'
     raise ValueError(kind)
 
 
@@ -138,6 +145,12 @@ def mk_case(job):
         return None
     if kind == 'dupInlineRef':
         return mk_inline_case(rng, spec, kind)
+    if kind in ('danglingRefNoTables', 'danglingGroupNoTables'):
+        spec = dict(spec, tables=[], refs=[], groups=[])
+        if rng.random() < 0.25:
+            spec = dict(spec, enums=[], sticky=[], project=None)
+        if not SP.spellable(spec):
+            return None
     text, exp, info = SP.spell(spec, rng, {'varied': True})
     extra = inject(rng, spec, kind)
     if extra is None:
@@ -189,7 +202,7 @@ def main(tier, seed):
         return 'ok' in r
 
     return ctx.finish(
-        rule='a well-formed spelled document plus one injected declaration breaking one rule (14 kinds: duplicate table, reused '
+        rule='a well-formed spelled document plus one injected declaration breaking one rule (16 kinds: duplicate table, reused '
              'alias, alias equal to a key, duplicate enum, duplicate group, table twice in a group via any addressing, identical '
              'reference in any form/addressing - also twice inline in one settings list -, column-less table, dangling table/column in reference, index, group), inserted at '
              'a random element boundary, in random spelling. Distinct by document hash; all are non-trivial',
